@@ -1,6 +1,10 @@
 package streamreader
 
-import "bytes"
+import (
+	"bytes"
+	"errors"
+	"io"
+)
 
 //go:generate mockgen -source reader.go -destination mocks/mocks.go -typed true
 
@@ -15,6 +19,9 @@ type Stream[T Request] interface {
 type reader[T Request] struct {
 	stream Stream[T]
 	buf    bytes.Buffer
+
+	// err is the failure that ended the stream, if it did not end with io.EOF.
+	err error
 }
 
 func New[T Request](stream Stream[T]) *reader[T] {
@@ -27,10 +34,20 @@ func (r *reader[T]) Read(p []byte) (int, error) {
 	for len(p) > r.buf.Len() {
 		resp, err := r.stream.Recv()
 		if err != nil {
+			if !errors.Is(err, io.EOF) {
+				r.err = err
+			}
+
 			break
 		}
 
 		r.buf.Write(resp.GetChunk())
+	}
+
+	// A broken stream is not the end of the content: report it once what was
+	// received has been handed out.
+	if r.err != nil && r.buf.Len() == 0 {
+		return 0, r.err
 	}
 
 	return r.buf.Read(p)
